@@ -1,6 +1,7 @@
 (* C09 -- TSPkoptEnv._local_operator, branch k_max > 2 (NeuOpt k-opt relinking), and the sequential move
    builder shared by TSPkoptEnv._random_action and NeuOptPolicy.forward (its masks do not depend on the
-   network).  Model only; the finite validity statement is in ImproveKoptFinite.v. *)
+   network).  Model only; the unbounded validity theorem is in ImproveKoptUnbounded.v (operator on S-moves) and
+   ImproveKoptBuilder.v (builder invariant, [k_opt_valid]); a finite exhaustive statement is in ImproveKoptFinite.v. *)
 From Coq Require Import ZArith List Bool Lia ZifyBool Arith.
 From RL4CO Require Import Env.Improve.
 Import ListNotations.
@@ -119,7 +120,8 @@ Definition kopt_builder (k : nat) (rec : list nat) (cs : list nat) : option (lis
   | Some st => Some (kb_finish k st)
   end.
 
-(* the full-strength statement (the NeuOpt construction is claimed valid for every k and n); NOT proved here *)
+(* the full-strength statement (the NeuOpt construction is claimed valid for every k and n); proved in
+   ImproveKoptBuilder.v as [k_opt_valid_statement_holds] *)
 Definition k_opt_valid_statement : Prop :=
   forall k rec cs a, 3 <= k -> 3 <= length rec -> is_tour rec -> length cs = k ->
     kopt_builder k rec cs = Some a -> is_tour (k_opt k rec a).
